@@ -146,7 +146,6 @@ func extra9C09(c *Ctx) {
 		c.Undecided(rule, "anchor:func:Registry.Pull", "-", "anchor lost")
 		return
 	}
-	info := f.Info()
 	g := c.G(f)
 	waits := g.FindCalls("golang.org/x/sync/errgroup.Group.Wait")
 	c.Expect(rule, "g.Wait calls in Pull", len(waits), 1)
@@ -155,15 +154,8 @@ func extra9C09(c *Ctx) {
 		if ex.Return == nil || len(ex.Return.Results) != 1 {
 			continue
 		}
-		r := ast.Unparen(ex.Return.Results[0])
-		success := false
-		if id, isId := r.(*ast.Ident); isId && info.Uses[id] == types.Universe.Lookup("nil") {
-			success = true
-		}
-		if call, isC := r.(*ast.CallExpr); isC && strings.HasSuffix(core.CalleeName(info, call), "DiskCache.Link") {
-			success = true
-		}
-		if !success {
+		// every return that is not known to hand back an error may be the successful one
+		if g.ReturnKind(ex) == core.RetError {
 			continue
 		}
 		n++
@@ -219,6 +211,12 @@ func extra9C14(c *Ctx) {
 					}
 					return false
 				}) {
+					// storing the result of this very TruncateStop (kept, _ := TruncateStop(…); pending = kept) is the assignment itself
+					if a2, isA := st.Node.(*ast.AssignStmt); isA && len(a2.Rhs) == 1 {
+						if rv := core.ResultVar(info, ts.Top, ts.Node.(*ast.CallExpr), 0); rv != nil && isIdentOf(info, a2.Rhs[0], rv) {
+							continue
+						}
+					}
 					if st.Loc != ts.Loc && g.Dominates(ts.Loc, st.Loc) && g.Reaches(st.Loc, rm.Loc) {
 						bad = "the pending pieces are stored to again at " + c.Pos(st.Node) + " between TruncateStop and the flush"
 					}
@@ -731,13 +729,8 @@ func extra9Names(c *Ctx, rule string) {
 			continue
 		}
 		// is another iteration possible after this store? (a `continue` follows in the same clause)
-		again := false
-		for _, br := range g.Find(func(nd ast.Node) bool { b, ok := nd.(*ast.BranchStmt); return ok && b.Tok == token.CONTINUE }) {
-			if g.Dominates(st.Loc, br.Loc) {
-				again = true
-			}
-		}
-		if !again {
+		// is another iteration possible after this store? (control can come back to it)
+		if !g.Reaches(st.Loc, st.Loc) {
 			continue
 		}
 		n++
